@@ -207,7 +207,7 @@ def history_block(args):
     st = _prep()
     PM, MK, E = st['PM'], st['MK'], st['E']
     base = f"{P}/psd_meso.psd_mesoporous"
-    cfg = f"model={method}|{second[0]}:{second[1]}|after:{first[0]}:{first[1]}"
+    cfg = f"model={method}|{':'.join(second)}|after:{':'.join(first)}"
     eng = sx.Engine(max_paths=4000, div0='assume')
     table = {('ads', 'slit'): 'hemicylindrical', ('ads', 'cylinder'): 'cylindrical', ('des', 'slit'): 'hemicylindrical', ('des', 'cylinder'): 'hemispherical',
              ('ads', 'sphere'): 'hemispherical', ('des', 'sphere'): 'hemispherical'}
@@ -224,7 +224,7 @@ def history_block(args):
         try:
             isos = []
             outs = []
-            for tag, (branch, geom) in (('a', first), ('b', second)):
+            for tag, (branch, geom, *men) in (('a', first), ('b', second)):
                 ps = [eng.real(f'p{tag}{i}', positive=True) for i in range(n)]
                 Vs = [eng.real(f'V{tag}{i}', positive=True) for i in range(n)]
                 for i in range(1, n):
@@ -236,7 +236,8 @@ def history_block(args):
                 PM.get_iso_loading_and_pressure_ordered = lambda isotherm, br, lu, pu, ps=ps, Vs=Vs: (_arr(ps), _arr(Vs))
                 mark = len(calls)
                 try:
-                    PM.psd_mesoporous(iso, psd_model=method, pore_geometry=geom, branch=branch, thickness_model='zero thickness', kelvin_model='Kelvin')
+                    PM.psd_mesoporous(iso, psd_model=method, pore_geometry=geom, branch=branch, thickness_model='zero thickness', kelvin_model='Kelvin',
+                                      **({'meniscus_geometry': men[0]} if men else {}))
                     outs.append(('return', mark))
                 except E.CalculationError:
                     outs.append(('CalculationError', mark))
@@ -247,7 +248,8 @@ def history_block(args):
         iso = isos[1]
         mine = calls[outs[1][1]:]
         eng.prove(f"{base}/history.kelvin_model_evaluated_in_second_calculation/{cfg}", outs[1][0] != 'return' or len(mine) > 0, extra=x)
-        want = {'meniscus_geometry': table[second], 'temperature': iso.temperature, 'liquid_density': iso.rho, 'adsorbate_molar_mass': iso.M,
+        # (a meniscus geometry named by the caller is the one used; the branch / pore-geometry table only fills in a missing one)
+        want = {'meniscus_geometry': second[2] if len(second) > 2 else table[tuple(second[:2])], 'temperature': iso.temperature, 'liquid_density': iso.rho, 'adsorbate_molar_mass': iso.M,
                 'adsorbate_surface_tension': iso.gamma}
         ok = all(set(kw) == set(want) and all((kw[k] is v) or (isinstance(v, str) and kw[k] == v) for k, v in want.items()) for kw in mine)
         eng.prove(f"{base}/history.kelvin_model_built_from_this_isotherm_branch_and_geometry/{cfg}", ok,
@@ -355,6 +357,10 @@ def run(rep):
             if m != 'pygaps-DH' and 'slit' in (first[1], second[1]):
                 continue
             jobs.append(('hist', (m, first, second)))
+    for m, first, second in (('pygaps-DH', ('des', 'slit'), ('des', 'slit', 'hemispherical')), ('pygaps-DH', ('ads', 'sphere'), ('ads', 'sphere', 'cylindrical')),
+                             ('pygaps-DH', ('des', 'cylinder', 'cylindrical'), ('des', 'cylinder')), ('BJH', ('ads', 'cylinder'), ('ads', 'cylinder', 'hemispherical')),
+                             ('DH', ('des', 'cylinder'), ('des', 'cylinder', 'hemicylindrical')), ('pygaps-DH', ('ads', 'slit', 'cylindrical'), ('ads', 'slit', 'hemispherical'))):
+        jobs.append(('hist', (m, first, second)))
     obs, crashes = par.pmap(_dispatch, jobs)
     rep.extend(obs)
     if crashes:
